@@ -1419,12 +1419,19 @@ func (p *PikeVM) addThread(t thread, haystack []byte, pos int) {
 		// For alternation: left=first alt, right=second alt → first alt explored first
 		left, right := state.Split()
 
+		// Take the right branch's reference BEFORE exploring the left branch: the left
+		// branch writes its capture slots in place while it is the only owner, and a
+		// clone taken afterwards would see those writes (`([0-9]2{1,3}){2,}2c` on
+		// "020222c" reported group 1 = [5 5] instead of [2 5]).
+		rightCaps := t.captures
+		if left != InvalidState && right != InvalidState {
+			rightCaps = t.captures.clone()
+		}
 		if left != InvalidState {
 			p.addThread(thread{state: left, startPos: t.startPos, captures: t.captures}, haystack, pos)
 		}
 		if right != InvalidState {
-			// Clone captures for right branch to ensure COW works properly.
-			p.addThread(thread{state: right, startPos: t.startPos, captures: t.captures.clone()}, haystack, pos)
+			p.addThread(thread{state: right, startPos: t.startPos, captures: rightCaps}, haystack, pos)
 		}
 
 	case StateCapture:
@@ -1522,11 +1529,16 @@ func (p *PikeVM) addThreadToNext(t thread, haystack []byte, pos int) {
 	case StateSplit:
 		left, right := state.Split()
 
+		// Reference for the right branch first (see addThread)
+		rightCaps := t.captures
+		if left != InvalidState && right != InvalidState {
+			rightCaps = t.captures.clone()
+		}
 		if left != InvalidState {
 			p.addThreadToNext(thread{state: left, startPos: t.startPos, captures: t.captures}, haystack, pos)
 		}
 		if right != InvalidState {
-			p.addThreadToNext(thread{state: right, startPos: t.startPos, captures: t.captures.clone()}, haystack, pos)
+			p.addThreadToNext(thread{state: right, startPos: t.startPos, captures: rightCaps}, haystack, pos)
 		}
 		return
 
